@@ -4,6 +4,8 @@ package main
 // Everything here is a forward may-analysis over blocks: no path is enumerated.
 
 import (
+	"strings"
+	"go/token"
 	"fmt"
 	"go/types"
 
@@ -99,7 +101,34 @@ func isCloseOf(i ssa.Instruction, ch ssa.Value) bool {
 	if _, isDefer := i.(*ssa.Defer); isDefer {
 		return false
 	}
-	return calleeName(c) == "builtin:close" && c.Common().Args[0] == ch
+	return calleeName(c) == "builtin:close" && sameChan(c.Common().Args[0], ch)
+}
+
+// sameChan: v is ch, or a load of a local that only ever holds ch (a parameter captured by a closure
+// is spilled to such a local).
+func sameChan(v, ch ssa.Value) bool {
+	v = unwrap(v)
+	if v == ch {
+		return true
+	}
+	ld, ok := v.(*ssa.UnOp)
+	if !ok || ld.Op != token.MUL {
+		return false
+	}
+	a, ok := ld.X.(*ssa.Alloc)
+	if !ok || a.Referrers() == nil {
+		return false
+	}
+	stores := 0
+	for _, r := range *a.Referrers() {
+		if st, ok := r.(*ssa.Store); ok && st.Addr == ssa.Value(a) {
+			stores++
+			if unwrap(st.Val) != ch {
+				return false
+			}
+		}
+	}
+	return stores >= 1
 }
 
 func isChanType(t types.Type) bool {
@@ -115,7 +144,7 @@ func checkCloseOnce(c *Ctx, rule string, f *ssa.Function, ch ssa.Value, chName s
 	var deferred []*ssa.Defer
 	nClose := 0
 	eachInstr(f, func(i ssa.Instruction) {
-		if d, ok := i.(*ssa.Defer); ok && calleeName(d) == "builtin:close" && d.Common().Args[0] == ch {
+		if d, ok := i.(*ssa.Defer); ok && calleeName(d) == "builtin:close" && sameChan(d.Common().Args[0], ch) {
 			deferred = append(deferred, d)
 		}
 		if isCloseOf(i, ch) {
@@ -145,7 +174,7 @@ func checkCloseOnce(c *Ctx, rule string, f *ssa.Function, ch ssa.Value, chName s
 				bad = append(bad, fmt.Sprintf("return at %s is reached with close count %s", c.W.pos(x.Pos()), maskString(before)))
 			}
 		case *ssa.Send:
-			if x.Chan == ch && before&(cnt1|cntN) != 0 {
+			if sameChan(x.Chan, ch) && before&(cnt1|cntN) != 0 {
 				bad = append(bad, fmt.Sprintf("send at %s may execute after close", c.W.pos(x.Pos())))
 			}
 		}
@@ -153,6 +182,13 @@ func checkCloseOnce(c *Ctx, rule string, f *ssa.Function, ch ssa.Value, chName s
 			firstPos = i.Pos()
 		}
 	})
+	if nClose == 0 {
+		// nothing recognised as a close of this channel here: if the channel is handed on, the close may be elsewhere
+		if esc := chanEscapes(f, ch, nil); len(esc) > 0 {
+			c.undecided(rule, "close-once/"+key, firstPos, "no close of "+chName+" in "+fname(f)+" and the channel is "+strings.Join(esc, ", "))
+			return
+		}
+	}
 	c.check(len(bad) == 0 && nClose > 0, rule, "close-once/"+key, firstPos,
 		"every path to a return closes "+chName+" exactly once; no send after close",
 		fmt.Sprintf("%d close site(s); %v", nClose, bad))
